@@ -50,6 +50,8 @@ ASSUMPTIONS = ["dyadic steps (1, 2, 250, 1/2, 1/4, 1/8): coordinates must equal 
                "set_value_at_pos also runs on bool / uint8 / int16 / int32 / float32 arrays with Python and numpy scalars and rows of other dtypes: the "
                "values are small whole numbers, so 'the value as the array's dtype represents it' is the value itself (non-zero for bool); "
                "fractional values into integer arrays (numpy truncates) are not generated",
+               "explicit steps sweep the decimals k/1000 (every 7th in quick, all 999 in thorough, a random 200 per run): the recorded step must "
+               "be the very double that was passed",
                "range constructors are also exercised in histories (construct, edit the result in place, construct again): the second "
                "result is judged by the same clauses",
                "a count is pinned only when (stop - start)/step is nominally whole; otherwise floor or ceil is accepted",
@@ -323,6 +325,10 @@ def random_cases(rng, tier):
         hist = [[rng.choice(["add", "set0"]), rng.choice(["range", "time", "freq"])]] if st and not sr and not size and rng.random() < 0.3 else []
         yield {"kind": "range", "fn": fn, "st": st, "sr": sr, "size": size, "s": s, "a4": a4, "m": m,
                "sm": rng.choice(["near", "fma"]) if fn == "range" and st and not size and not hist else "near", "hist": hist}
+    for kk in rng.sample(range(1, 1000), 200):                      # decimal steps k/1000: a fresh random 200 per run
+        fn = rng.choice(["range", "time", "freq"])
+        yield {"kind": "range", "fn": fn, "st": True, "sr": [], "size": [], "s": [kk, 1000], "a4": rng.choice([0, 14, -8]),
+               "m": rng.randrange(1, 120), "sm": "near", "hist": []}
     for _ in range(300 * k):
         s = rng.choice(UNITS)
         n = rng.randrange(1, 200)
